@@ -110,3 +110,83 @@ def run(ctx):
             ctx.fail("diff", "httpbatch-model-differs", {"line": line, "tag": tag}, {"impl": a, "model": b})
         ctx.record({"http": line}, a, nontrivial=a.startswith("batch:"))
         oracle(ctx, tag, idk, pre, n, items, a)
+
+
+# ---------------------------------------------------------------------------------------------------------------
+# single-call mode (C03 on the HTTP client): `single <idkind> <pre> <item>`; the call's own id is `pre` in the client's kind
+
+def _spec_id(spec, idk, pre):
+    """the JSON id an idspec denotes, as a canonical python value ('n', int) / ('s', bytes) / ('z',)"""
+    if spec.startswith("p"):
+        k = pre + int(spec[1:])
+        return ("n", k) if idk == "n" else ("s", str(k).encode())
+    if spec.startswith("n"):
+        return ("n", int(spec[1:]))
+    if spec.startswith("s"):
+        return ("s", b"" if spec[1:] == "-" else bytes.fromhex(spec[1:]))
+    return ("z",)
+
+
+def gen_single(ctx):
+    rng = ctx.rng
+    cases = []
+    results = [b"1", b'"r"', b"null", b'{"a":[1,2]}', b"[]", b"false", b'"\\u00e9"', b"1e3"]
+    for idk in "ns":
+        for pre in (0, 1, 7):
+            own = ("n%d" % pre) if idk == "n" else ("s" + hx(str(pre).encode()))
+            other_kind = ("s" + hx(str(pre).encode())) if idk == "n" else ("n%d" % pre)
+            specs = ["p0", own, "p1", "p2", other_kind, "z", "n%d" % (pre + 1), "s" + hx(b"x"), "s-", "n18446744073709551615",
+                     "s" + hx(("0%d" % pre).encode()), "s" + hx((" %d" % pre).encode())]
+            for sp in specs:
+                for r in results[:4] if not ctx.thorough else results:
+                    cases.append(("single", idk, pre, "%s:r%s" % (sp, hx(r))))
+                cases.append(("single", idk, pre, "%s:e%d:%s:-" % (sp, -32000 - pre, hx(b"boom"))))
+                cases.append(("single", idk, pre, "%s:e7:%s:%s" % (sp, hx(b"m"), hx(b"[1]"))))
+            for raw in (b"", b"{}", b"[]", b"hello", b'{"jsonrpc":"2.0","id":%d}' % pre, b'{"jsonrpc":"2.0","method":"m","params":[]}',
+                        b'[{"jsonrpc":"2.0","id":%d,"result":1}]' % pre, b' {"jsonrpc":"2.0","id":%d,"result":1}' % pre,
+                        b'{"jsonrpc":"2.0","id":%d,"result":1,"error":{"code":1,"message":""}}' % pre, b'{"jsonrpc":"2.0","id":%d.0,"result":1}' % pre):
+                cases.append(("single-raw", idk, pre, "B" + hx(raw)))
+    for _ in range(ctx.scale(300, 6000)):
+        idk, pre = rng.choice("ns"), rng.choice([0, 0, 1, 2, 5, 40])
+        sp = rng.choice(["p0", "p0", "p0", "p1", "p3", "z", "n%d" % rng.randrange(0, 8), "s" + hx(str(rng.randrange(0, 8)).encode())])
+        if rng.random() < 0.75:
+            it = "%s:r%s" % (sp, hx(rng.choice(results)))
+        else:
+            it = "%s:e%d:%s:%s" % (sp, rng.randrange(-32800, 100), hx(rng.choice([b"", b"m", b"err"])), rng.choice(["-", hx(b"1"), hx(b'"d"')]))
+        cases.append(("single", idk, pre, it))
+    return cases
+
+
+def oracle_single(ctx, tag, idk, pre, it, out):
+    """C03 on the implementation's line alone: a result is delivered iff the response bears the call's own id, and it is that response's result"""
+    case = {"line": "single %s %d %s" % (idk, pre, it), "tag": tag}
+    if out.startswith(("PANIC", "CRASH", "?")):
+        ctx.fail("oracle", "httpbatch-harness-trouble", case, out)
+        return
+    if tag != "single":
+        return
+    spec, _, payload = it.partition(":")
+    own = ("n", pre) if idk == "n" else ("s", str(pre).encode())
+    mine = _spec_id(spec, idk, pre) == own
+    if payload.startswith("r"):
+        raw = payload[1:]
+        if mine and out != "ok:" + raw:
+            ctx.fail("oracle", "http-single-own-answer-not-delivered", case, out)
+        if not mine and out.startswith("ok:"):
+            ctx.fail("oracle", "http-single-foreign-result-delivered", case, out)
+    elif mine and not out.startswith("call:"):
+        ctx.fail("oracle", "http-single-own-error-not-delivered", case, out)
+
+
+def run_single(ctx):
+    impl, model = vlib.rust_bin("httpbatch"), vlib.model_bin("httpbatch")
+    cases = gen_single(ctx)
+    lines = ["single %s %d %s" % (idk, pre, it) for _, idk, pre, it in cases]
+    ri = vlib.run_lines([impl], lines, shards=8, min_shard=300)
+    rm = vlib.run_lines([model], lines, min_shard=500)
+    for (tag, idk, pre, it), line, a, b in zip(cases, lines, ri, rm):
+        ctx.count("http:" + tag)
+        if a != b:
+            ctx.fail("diff", "httpbatch-model-differs", {"line": line, "tag": tag}, {"impl": a, "model": b})
+        ctx.record({"http": line}, a, nontrivial=a.startswith(("ok:", "call:")))
+        oracle_single(ctx, tag, idk, pre, it, a)
